@@ -777,6 +777,21 @@ func saveloadGen(tier string, r *rng, emit func(string)) {
 	fn([]string{"a=[x=>x+1,func(){2}]"}, "a[0](1)", "a[1]()")
 	fn([]string{"func f(){1}", "g=f"}, "g()", "f()")
 	fn([]string{"y=3", "f=func(){y=y+1;y}"}, "f()", "f()", "y")
+	// 3b. operator x prefix-operator operand table (seeded change C14-5: the compact text of `a - --b` was saved as `a---b`, which
+	// loads as `a-- - b`): the saved (compact) text of a function must behave like the function, for every pair of adjacent operators
+	slOps := []string{"+", "-", "*", "<", "&", "^"}
+	if tier == "thorough" {
+		slOps = []string{"+", "-", "*", "/", "%", "<", ">", "<=", "==", "!=", "&&", "||", "&", "|", "^", "<<", ">>"}
+	}
+	for _, op := range slOps {
+		for _, pre := range []string{"-", "+", "--", "++", "^", "!", "- -", "-(-", "- --"} {
+			cl := ""
+			if strings.HasSuffix(pre, "(-") {
+				cl = ")"
+			}
+			fn([]string{"func f(a,b){a " + op + " " + pre + "b" + cl + "}", "g=(a,b)=>[" + pre + "a" + cl + " " + op + " b, a" + op + pre + "b" + cl + "]"}, "f(5,3)", "g(5,3)", "f(true,false)")
+		}
+	}
 	// 4. constants and names shadowing pre-seeded identifiers
 	fn([]string{"X=5", "Y_2=[1,2]", "PI2=PI*2"}, "X", "PI2")
 	fn([]string{"abs=3"}, "abs")
